@@ -794,7 +794,18 @@ func c19AcctUniqueKeys(fn *ast.FuncDecl) (string, error) {
 	t.slices[ret.Name] = "key"
 	// for _, key := range keys { if _, ok := seen[key]; !ok { seen[key] = struct{}{}; ret = append(ret, key) } }
 	rs, ok := l[2].(*ast.RangeStmt)
-	if !ok || len(rs.Body.List) != 1 {
+	if !ok || len(rs.Body.List) < 1 {
+		return "", t.errf("statement 3 is not the loop")
+	}
+	// `if _, ok := seen[key]; c { continue } ; B`  is read as  `if _, ok := seen[key]; !c { B }`
+	negate := false
+	if first, isIf := rs.Body.List[0].(*ast.IfStmt); isIf && len(rs.Body.List) > 1 && first.Else == nil {
+		if br, only := c19ccOnlyBranch(first.Body); only && br == token.CONTINUE {
+			rs.Body.List = []ast.Stmt{&ast.IfStmt{Init: first.Init, Cond: first.Cond, Body: &ast.BlockStmt{List: rs.Body.List[1:]}}}
+			negate = true
+		}
+	}
+	if len(rs.Body.List) != 1 {
 		return "", t.errf("statement 3 is not the loop")
 	}
 	kv, _ := rs.Key.(*ast.Ident)
@@ -821,14 +832,16 @@ func c19AcctUniqueKeys(fn *ast.FuncDecl) (string, error) {
 	if !ok || okv == nil || c19Squash(types.ExprString(ix)) != seen.Name+"["+vv.Name+"]" {
 		return "", t.errf("loop test is not a lookup of the key in the set")
 	}
-	var c string
-	switch c19Squash(types.ExprString(is.Cond)) {
-	case "!" + okv.Name:
-		c = "(negb (g_set_mem " + c19Gv(vv.Name) + " " + c19Gv(seen.Name) + "))"
-	case okv.Name:
-		c = "(g_set_mem " + c19Gv(vv.Name) + " " + c19Gv(seen.Name) + ")"
-	default:
+	sign := c19OkSign(is.Cond, okv.Name)
+	if sign == 0 {
 		return "", t.errf("loop test")
+	}
+	if negate {
+		sign = -sign
+	}
+	c := "(g_set_mem " + c19Gv(vv.Name) + " " + c19Gv(seen.Name) + ")"
+	if sign < 0 {
+		c = "(negb " + c + ")"
 	}
 	var body strings.Builder
 	for _, s := range is.Body.List {
@@ -963,9 +976,24 @@ func c19AcctUpdateValues(fn *ast.FuncDecl) (string, error) {
 	}
 	// body: optional `var err error`, then if _, ok = dps[from]; ok { nFromMap[from], err = handle(from, target, value, ..) ; if err != nil {return} } else { close }
 	var is *ast.IfStmt
+	var body []ast.Stmt
 	for _, s := range inner.Body.List {
+		if _, decl := s.(*ast.DeclStmt); !decl { // `var err error`
+			body = append(body, s)
+		}
+	}
+	// `if c { A ; continue } ; B`  is read as  `if c { A } else { B }`
+	if len(body) > 1 {
+		if first, ok := body[0].(*ast.IfStmt); ok && first.Else == nil && len(first.Body.List) > 0 {
+			if br, ok := first.Body.List[len(first.Body.List)-1].(*ast.BranchStmt); ok && br.Tok == token.CONTINUE && br.Label == nil {
+				body = []ast.Stmt{&ast.IfStmt{Init: first.Init, Cond: first.Cond,
+					Body: &ast.BlockStmt{List: first.Body.List[:len(first.Body.List)-1]},
+					Else: &ast.BlockStmt{List: body[1:]}}}
+			}
+		}
+	}
+	for _, s := range body {
 		switch x := s.(type) {
-		case *ast.DeclStmt:
 		case *ast.IfStmt:
 			if is != nil {
 				return "", t.errf("inner loop: two if statements")
@@ -988,10 +1016,10 @@ func c19AcctUpdateValues(fn *ast.FuncDecl) (string, error) {
 	}
 	mem := "(g_set_mem " + c19Gv(from.Name) + " " + c19Gv(dps) + ")"
 	var c string
-	switch c19Squash(types.ExprString(is.Cond)) {
-	case okv.Name:
+	switch c19OkSign(is.Cond, okv.Name) {
+	case 1:
 		c = mem
-	case "!" + okv.Name:
+	case -1:
 		c = "(negb " + mem + ")"
 	default:
 		return "", t.errf("inner test")
@@ -1052,7 +1080,7 @@ func c19AcctOnWithStreamHandle(fn *ast.FuncDecl) (string, error) {
 		return "", t.errf("parameters (%s)", strings.Join(ps, ", "))
 	}
 	l := fn.Body.List
-	if len(l) != 4 {
+	if len(l) < 4 {
 		return "", t.errf("%d statements, expected 4", len(l))
 	}
 	// if <cond on len(handlers)> { return ctx, inOut }
@@ -1099,8 +1127,26 @@ func c19AcctOnWithStreamHandle(fn *ast.FuncDecl) (string, error) {
 		c19Squash(types.ExprString(hc.Args[2])) != cps.Name+"["+iv.Name+"]" {
 		return "", t.errf("loop body is not ctx = handle(ctx, handler, inOuts[i])")
 	}
+	// integer definitions between the loop and the return: last := len(inOuts) - 1
+	var lets string
+	for _, s := range l[3 : len(l)-1] {
+		la, ok := s.(*ast.AssignStmt)
+		if !ok || la.Tok != token.DEFINE || len(la.Lhs) != 1 || len(la.Rhs) != 1 {
+			return "", t.errf("statement between the loop and the return")
+		}
+		id, ok := la.Lhs[0].(*ast.Ident)
+		if !ok {
+			return "", t.errf("statement between the loop and the return")
+		}
+		v, err := t.intExpr(la.Rhs[0])
+		if err != nil || len(t.pre) > 0 {
+			return "", t.errf("statement between the loop and the return")
+		}
+		t.ints[id.Name] = true
+		lets += "let " + c19Gv(id.Name) + " := " + v + " in\n  "
+	}
 	// return ctx, inOuts[J]
-	r1, ok := l[3].(*ast.ReturnStmt)
+	r1, ok := l[len(l)-1].(*ast.ReturnStmt)
 	if !ok || len(r1.Results) != 2 || c19Squash(types.ExprString(r1.Results[0])) != "ctx" {
 		return "", t.errf("final return")
 	}
@@ -1108,7 +1154,7 @@ func c19AcctOnWithStreamHandle(fn *ast.FuncDecl) (string, error) {
 	if err != nil {
 		return "", err
 	}
-	pre := t.flush("  ")
+	pre := lets + t.flush("  ")
 	return "Definition on_with_stream_handle (v_handlers : list unit) (v_inOut : handle) (st : store) : res (handle * list handle * store) :=\n" +
 		"  if " + c + " then Ok (v_inOut, [], st)\n" +
 		"  else\n" +
@@ -1142,6 +1188,12 @@ func c19ExtractAcctCode(repo string) (string, string, error) {
 	if ci == nil || uk == nil || rc == nil || uv == nil {
 		return "", "", fmt.Errorf("copyItem / uniqueKeys / (*runner).resolveCompletedTasks / (*channelManager).updateValues not found")
 	}
+	// private helpers called from the translated functions are expanded first (c19_inline.go)
+	inl := c19NewInliner(fset, filepath.Join(repo, "compose"))
+	for _, fn := range []*ast.FuncDecl{ci, uk, rc, uv} {
+		inl.expandFunc(fn)
+	}
+	c19NewInliner(fset, filepath.Join(repo, "internal", "callbacks")).expandFunc(ow)
 	d1, err := c19AcctCopyItem(ci)
 	if err != nil {
 		return "", "", err
@@ -1199,6 +1251,17 @@ func c19MethodOf(f *ast.File, recvType, name string) *ast.FuncDecl {
 		}
 	}
 	return nil
+}
+
+// the condition is the comma-ok variable (+1) or its negation (-1), in any of the usual spellings; 0: something else
+func c19OkSign(cond ast.Expr, okName string) int {
+	switch c19Squash(types.ExprString(cond)) {
+	case okName, okName + "==true", "true==" + okName, okName + "!=false", "false!=" + okName, "(" + okName + ")":
+		return 1
+	case "!" + okName, okName + "==false", "false==" + okName, okName + "!=true", "true!=" + okName, "!(" + okName + ")":
+		return -1
+	}
+	return 0
 }
 
 func c19Squash(s string) string { return strings.Join(strings.Fields(s), "") }
